@@ -85,6 +85,7 @@ type xchain struct {
 	pendingVotes []uint64
 	lastBal      map[string]*big.Int
 	tssm         *tssModel
+	clientKind   map[int]string // by counterparty index: "tss" while governance has replaced the light client by a TSS client
 	crashAt      int
 	crashIdx     int
 	forwarder    common.Address
